@@ -284,6 +284,10 @@ partial def parseTT : SExp → Option TraitType
   | .list [.atom "This", an] => (sexpBool an).map .this
   | .list [.atom "Callable", an] => (sexpBool an).map .callable
   | .list (.atom "Either" :: wn :: ts) => do pure (.either (← ts.mapM parseTT) (← sexpBool wn))
+  | .list (.atom "TraitK" :: d :: .list cs :: ts) => do
+    pure (traitMaker (← parseVal d) (← cs.mapM parseVal) (← ts.mapM parseTT))
+  | .list (.atom "EitherK" :: .list cs :: ts) => do
+    pure (traitMaker Val.none (← cs.mapM parseVal) (← ts.mapM parseTT))
   | .list (.atom "Union" :: ts) => (ts.mapM parseTT).map .union
   | .list [.atom "String", .atom mn, mx, re] => do
     pure (.string (← mn.toNat?) (← parseOptNat mx) (← parseOptNat re))
